@@ -35,7 +35,15 @@ type c08Reader struct {
 	deviate  bool // ask the explorer for short-read deviations
 	failAt   int  // fail once this many bytes were delivered (-1: never)
 	failWith bool // return the error together with the last data before failAt
+	failErr  error // the error to fail with (nil: errC08)
 	reads    int
+}
+
+func (r *c08Reader) failure() error {
+	if r.failErr != nil {
+		return r.failErr
+	}
+	return errC08
 }
 
 func (r *c08Reader) Read(p []byte) (int, error) {
@@ -45,7 +53,7 @@ func (r *c08Reader) Read(p []byte) (int, error) {
 	}
 	rem := len(r.data) - r.pos
 	if r.failAt >= 0 && r.pos >= r.failAt {
-		return 0, errC08
+		return 0, r.failure()
 	}
 	if r.failAt >= 0 && r.failAt-r.pos < rem {
 		rem = r.failAt - r.pos
@@ -74,7 +82,7 @@ func (r *c08Reader) Read(p []byte) (int, error) {
 	copy(p, r.data[r.pos:r.pos+n])
 	r.pos += n
 	if r.failAt >= 0 && r.pos >= r.failAt && r.failWith {
-		return n, errC08
+		return n, r.failure()
 	}
 	if r.pos == len(r.data) && r.eofWith && r.failAt < 0 {
 		return n, io.EOF
@@ -275,17 +283,20 @@ func c08Faults(c *vrep.Ctx) {
 	}
 	probe := []byte("zqa aa bb cc aa bb zqb")
 	wantProbe := vFmt(cl.Match(probe))
-	c.R.Rule = fmt.Sprintf("failure injection: %d inputs (<=3000 bytes) x EVERY failure offset k in 0..len(input) x default chunk sizes %v x {error alone, error together with the last data}; MatchFrom must return the injected error and zero Results, never a panic or partial matches, and the next Match of the same text and MatchFrom of a short text on the same classifier return what they returned before the fault; non-trivial = distinct (input, offset, policy) executions", len(inputs), chunks)
+	c.R.Rule = fmt.Sprintf("failure injection: %d inputs (<=3000 bytes) x EVERY failure offset k in 0..len(input) x default chunk sizes %v x {error alone, error together with the last data} x {a private error, io.ErrUnexpectedEOF}; MatchFrom must return the injected error and zero Results, never a panic or partial matches, and the next Match of the same text and MatchFrom of a short text on the same classifier return what they returned before the fault; non-trivial = distinct (input, offset, policy) executions", len(inputs), chunks)
 	c.Bound("inputs", len(inputs))
 	body := func(r *vx.Run) {
 		ii := r.Choose(len(inputs), "input")
 		k := r.Choose(len(inputs[ii])+1, "fail-offset")
 		ch := chunks[r.Choose(len(chunks), "chunk")]
 		with := r.Choose(2, "error-with-data") == 1
-		rd := &c08Reader{data: inputs[ii], run: r, chunk: ch, failAt: k, failWith: with}
+		// the injected error: a private one, or io.ErrUnexpectedEOF as a reader of a truncated
+		// compressed stream reports it (a non-EOF failure that the io package itself also produces)
+		ferr := []error{errC08, io.ErrUnexpectedEOF}[r.Choose(2, "error-kind")]
+		rd := &c08Reader{data: inputs[ii], run: r, chunk: ch, failAt: k, failWith: with, failErr: ferr}
 		msg := vPanics(func() {
 			res, err := cl.MatchFrom(rd)
-			if err != errC08 {
+			if err != ferr {
 				panic(fmt.Sprintf("returned error %v, want the injected one", err))
 			}
 			if len(res.Matches) != 0 || res.TotalInputLines != 0 {
@@ -301,7 +312,7 @@ func c08Faults(c *vrep.Ctx) {
 				msg = fmt.Sprintf("after the failed MatchFrom, MatchFrom of a short text returned %s (%v), before it %s", vFmt(res), err, wantProbe)
 			}
 		}
-		r.Note = map[string]interface{}{"id": fmt.Sprintf("in%d fail@%d chunk%d with%v", ii, k, ch, with), "msg": msg}
+		r.Note = map[string]interface{}{"id": fmt.Sprintf("in%d fail@%d chunk%d with%v err=%v", ii, k, ch, with, ferr), "msg": msg}
 	}
 	c.Run(vSplitExplorer(c, 0, 2), body, func(r *vx.Run) {
 		id := r.Note["id"].(string)
